@@ -59,9 +59,12 @@ def run_c20(ctx):
     gens = {}
     for p in pairs:
         gens[p["gen"]] = gens.get(p["gen"], 0) + 1
+    negl = [p for p in pairs if p["gen"] == "neg" and p["op"] == "LOOKUP" and p["cls"].get("negative")]
+    if len({p["cls"]["minor"] for p in negl}) < 10:
+        raise C.ToolError("coverage gate: negative LOOKUP answers were not compared on servers negotiated at all ten minors")
     ctx.extra.update({
-        "distinct_nontrivial": len({(p["op"], p["tr"], p["gen"], p["cap"] < 16, p["len_huge"]) for p in pairs}),
-        "rule": "pairs (sync, async) over every %d-th of the %d request classes of WireFrame.tla, %d well-formed valuations per opcode and transport, %d random/mutated byte strings; distinct = (opcode, transport, generator, capacity class, oversize)" % (stride, ncls, kwf, nrand),
+        "distinct_nontrivial": len({(p["op"], p["tr"], p["gen"], p["cap"] < 16, p["len_huge"], p["cls"].get("minor")) for p in pairs}),
+        "rule": "pairs (sync, async) over every %d-th of the %d request classes of WireFrame.tla, %d well-formed valuations per opcode and transport, %d random/mutated byte strings, and servers negotiated at minors 0,3,4,5,11,12,22,23,33,38 (negative/positive LOOKUP answers, one valuation per opcode); distinct = (opcode, transport, generator, capacity class, oversize)" % (stride, ncls, kwf, nrand),
         "pairs_by_generator": gens,
         "design_level_differing_classes": ndiff,
         "binding_demo": [{"corruption": "change the async reply digest; change the async call's method", "rejected_with": sigs}],
